@@ -174,7 +174,7 @@ func c10run(c *fw.Ctx, idx int) {
 	var units []*c10unit
 	nprog := 4 + r.Intn(4)
 	for i := 0; i < nprog; i++ {
-		cfg := prog.Cfg{Items: 3, MaxDepth: 3, Ifs: true, Ranges: true, Vars: true, Blocks: true, MultiFile: i%2 == 0, Includes: i%3 == 0, Try: i%2 == 1, Fails: true, FailAnywhere: true, Ctx: true, CondKinds: true, SharedNames: true}
+		cfg := prog.Cfg{Items: 3, MaxDepth: 3, Ifs: true, Ranges: true, Vars: true, Blocks: true, MultiFile: i%2 == 0, Includes: i%3 == 0, Try: i%2 == 1, Fails: true, FailAnywhere: true, Ctx: true, CondKinds: true, SharedNames: true, IssetSwallow: true, IncludeIfExists: i%2 == 0}
 		p, _ := prog.Gen(r, cfg)
 		// plant a failure that escapes Execute as a panic, or an error raised by a function, at the end of some programs
 		mainRoot := p.File(p.Main)
